@@ -136,6 +136,17 @@ def oracle(case, impl):
     return None
 
 
+
+def _oracle_mdns_alive(case, impl):
+    from props.c18 import oracle_flood
+    if case.startswith("mdnsflood "):
+        r = oracle_flood(case, impl)
+        return r if (r and ("blocks" in r or "not learned" in r)) else None
+    if impl.startswith(("PANIC", "TIMEOUT", "LOST")):
+        return "the mDNS reader did not survive what was advertised: " + impl[:160]
+    return None
+
+
 SPEC = dict(
         lean_module="NV.Props.C14",
         level_text="Kernel-checked theorems over every hash function, profile, MAC, address, discovered-name table and extra-header set: "
@@ -150,7 +161,11 @@ SPEC = dict(
                    "every case; xxhash.Sum64, config.Profiles.Get, net.IP.String, the discovery tables and host.* are parameters. "
                    "Loopback-branch values (host name/model, machine id) come from the local machine, not from LAN devices; only the name is sanitised.",
         areas=[dict(name="cinfo", binary="main.test", n_quick=60000, n_thorough=1600000, shards_thorough=8, oracle=oracle,
-                    nontrivial=lambda c, i: not c.startswith(("nn ", "stored ")))],
+                    nontrivial=lambda c, i: not c.startswith(("nn ", "stored "))),
+               # "whatever names LAN devices advertise through mDNS ... a client's queries keep resolving": the real receive
+               # loop fed with packets (area shared with C18); a reader that dies or wedges inside the table's lock blocks the
+               # ClientInfo lookup every query makes
+               dict(name="mdns", n_quick=300, n_thorough=4000, shards_thorough=4, oracle=_oracle_mdns_alive, timeout=900)],
         trusted=COMMON_TRUST + ["overlay test harness compiled into package main (overlay/main_test.go.txt)",
                                 "translator /verif/extract (header literals and shortID constants)"],
         assumptions=["xxhash.Sum64 is an arbitrary function Bytes -> uint64 in the theorems; the harness passes its real value",
